@@ -9,6 +9,7 @@ from .execu import Exec, State, Outcome, Ctx, lift_ns, BUILTIN_EXC
 def number_loops(fn_node):
     """assign ordinals to for/while loops in source order (nested functions excluded)"""
     k = [0]
+    kc = [0]
 
     def visit(n):
         for c in ast.iter_child_nodes(n):
@@ -17,6 +18,9 @@ def number_loops(fn_node):
             if isinstance(c, (ast.For, ast.While)):
                 k[0] += 1
                 c._loop_no = k[0]
+            if isinstance(c, (ast.ListComp, ast.GeneratorExp)):
+                kc[0] += 1
+                c._comp_no = kc[0]
             visit(c)
     visit(fn_node)
     return k[0]
@@ -311,7 +315,11 @@ class StmtExec(Exec):
             return self.st_If(node, st)
         v = self.ev(s.value, st)
         for t in s.targets:
-            self.assign_to(t, v, st)
+            self._store_value_node = s.value
+            try:
+                self.assign_to(t, v, st)
+            finally:
+                self._store_value_node = None
             self.note_alias(t, s.value, lift(v) if not isinstance(v, DictItems) else None, st)
         return [Outcome("normal", st)]
 
